@@ -247,6 +247,11 @@ def dictClass : DictKind → String
 
 /-! ### `_exception.py` -/
 inductive ExcStep
+  /- the constructor -/
+  | strValueReIsRegexOnStr        -- `if isinstance(value_re, str): value_re = AfterPreprocessing(str, MatchesRegex(value_re), False)`
+  | instanceUnlessClassOrTuple    -- `_is_instance` = `type(expected)` is NOT a subclass of `type` or of `tuple` (a class with a
+                                  --  metaclass is a class, a named tuple of classes is a tuple of classes)
+  /- match() -/
   | notTupleMismatch              -- `if not isinstance(other, tuple): return Mismatch(…)`
   | notSubclassMismatch           -- `if not issubclass(other[0], expected_class): return Mismatch(…)`
   | instanceArgsDifferMismatch    -- `if self._is_instance: if other[1].args != self.expected.args: return Mismatch(…)`
@@ -378,7 +383,8 @@ def refDict : DictSkel :=
     extraIsObservedMinusExpected := true, missingSwapsRoles := true, commonKeysIntersection := true,
     commonTest := .truthy, keysEqualBothSubtractions := true }
 def refMatchesException : List ExcStep :=
-  [.notTupleMismatch, .notSubclassMismatch, .instanceArgsDifferMismatch, .valueMatcherIfNotNone]
+  [.strValueReIsRegexOnStr, .instanceUnlessClassOrTuple,
+   .notTupleMismatch, .notSubclassMismatch, .instanceArgsDifferMismatch, .valueMatcherIfNotNone]
 def refRaises : RaisesSkel :=
   { callsMatcheeInTry := true, returnedIsMismatch := true, catchesBaseException := true, matcherGuard := .truthy,
     innerTest := .falsy, propagatesNonUser := true, otherwiseReturnsMismatch := true }
